@@ -111,6 +111,8 @@ func Build(spec Spec, ch *choice.Source, scratch string) *Platform {
 	p.Sched = gosched.New(schedCh, spec.Policy)
 	p.Sched.EngineBurstMax = spec.Burst
 	p.Engine.BeforeEvent = p.Sched.EngineYield
+	// Pause / Continue are called by the driver's runAsync goroutine only
+	p.Engine.OnPauseContinue = func(which string) { p.Sched.Yield("async.engine-" + which) }
 
 	p.Sim = simulation.MakeBuilder().WithoutMonitoring().WithOutputFileName(scratch + "/akita_sim").Build()
 	injectEngine(p.Sim, p.Engine)
